@@ -8,6 +8,7 @@ import (
 	"verif/core"
 	"verif/model"
 	"verif/smfdec"
+	"verif/theory"
 )
 
 func init() { register("C06", checkC06) }
@@ -158,7 +159,18 @@ func checkC06(c *core.Ctx) {
 			return
 		}
 		sig := fmt.Sprintf("piece#%d", i)
-		r1, out1 := playPiece(c, p, model.Flags{Track: 1}, writeOpts{})
+		// the same instrument/program flags on every run: they are stated once, on the first track
+		var base model.Flags
+		if r.Intn(3) == 0 {
+			pg := r.Intn(128)
+			base.Program = &pg
+		}
+		if r.Intn(4) == 0 {
+			in := []string{"Piano", "x", "ピアノ", "a b"}[r.Intn(4)]
+			base.Instr = &in
+		}
+		withTrack := func(n int) model.Flags { f := base; f.Track = n; return f }
+		r1, out1 := playPiece(c, p, withTrack(1), writeOpts{})
 		if infra(c, r1) {
 			return
 		}
@@ -188,7 +200,7 @@ func checkC06(c *core.Ctx) {
 				if !model.InSet(total, t.EndTick) {
 					trail := p.Inst[len(p.Inst)-1].Chord == nil
 					c.Violate("piece", i, fmt.Sprintf("eot:n=%d:trailingrest=%v", n, trail),
-						fmt.Sprintf("--track %d: end-of-track of track %d at tick %d, the piece lasts %v ticks", n, ti, t.EndTick, total), withYAML(pieceDesc(p, model.Flags{Track: n}), p))
+						fmt.Sprintf("--track %d: end-of-track of track %d at tick %d, the piece lasts %v ticks", n, ti, t.EndTick, total), withYAML(pieceDesc(p, withTrack(n)), p))
 					return false
 				}
 			}
@@ -202,7 +214,7 @@ func checkC06(c *core.Ctx) {
 			if c.Quick() && r.Intn(2) == 0 && n > 4 {
 				continue
 			}
-			rn, outn := playPiece(c, p, model.Flags{Track: n}, writeOpts{})
+			rn, outn := playPiece(c, p, withTrack(n), writeOpts{})
 			if infra(c, rn) {
 				return
 			}
@@ -218,7 +230,7 @@ func checkC06(c *core.Ctx) {
 			got := mergedMultiset(fn)
 			if !eqStrs(got, ref) {
 				c.Violate("piece", i, fmt.Sprintf("merged:n=%d", n),
-					fmt.Sprintf("--track %d: merged events differ from --track 1: %s", n, firstDiff(got, ref)), withYAML(pieceDesc(p, model.Flags{Track: n}), p))
+					fmt.Sprintf("--track %d: merged events differ from --track 1: %s", n, firstDiff(got, ref)), withYAML(pieceDesc(p, withTrack(n)), p))
 				return
 			}
 			if !checkEOT(fn, n) {
@@ -266,6 +278,33 @@ func checkC06(c *core.Ctx) {
 		if compareTracksEnv(c, "wide", i, p, ns, false, env) {
 			c.Seen("cpu_counts", cpus[i%len(cpus)]+"/")
 			c.Nontrivial(fmt.Sprintf("wide%d", i))
+		}
+	})
+	// chords above the MIDI range (compound degrees 20..70, high basses): crd may refuse them, but what it writes
+	// keeps the clock - the same merged events for every N, every track ending with the piece
+	c.Stream("high", c.N(150, 3000), func(i int, r *rand.Rand) {
+		p := genTrackPiece(r, 8)
+		hit := false
+		for j := range p.Inst {
+			if ch := p.Inst[j].Chord; ch != nil && (!hit || r.Intn(3) == 0) {
+				n := 20 + r.Intn(50)
+				q := theory.Major
+				if k := (n - 1) % 7; k == 0 || k == 3 || k == 4 {
+					q = theory.Perfect
+				}
+				ch.Deg = theory.Interval{N: n, Q: q}
+				if r.Intn(3) == 0 {
+					b := theory.Interval{N: 8 + 7*r.Intn(3), Q: theory.Perfect}
+					ch.Bass = &b
+				}
+				hit = true
+			}
+		}
+		if !hit || !p.TotalBelow(960, 1<<28) {
+			return
+		}
+		if compareTracks(c, "high", i, p, []int{2, 3, 5}, true) {
+			c.Nontrivial(fmt.Sprintf("high%d", i))
 		}
 	})
 	// pieces longer than 2^28 ticks whose single deltas all fit: refusal is fine, a wrong file is not
